@@ -73,8 +73,8 @@ func runC19(c *Ctx) {
 	c.Rule("C19.I", "chain of custody of (backend ID, request ID) and of the stored bytes", 22)
 	c.Rule("C19.K", "key agreement between write and read paths; ordered blob parts", 9)
 	c.Rule("C19.C", "completion flag", 3)
-	c.Rule("C19.S", "cache and datastore keys encode (backend ID, request ID) injectively, same roles on both sides (= C17.S keys)", 5)
-	ruleStoreKeys(c, p, "C19.S")
+	c.Rule("C19.S", "cache and datastore keys encode (backend ID, request ID) injectively, same roles on both sides; the caching store delegates with its own parameters, context included (= C17.S)", 5)
+	c17Sibling(c, p, "C19.S") // includes the key rules; the caching store hands its own parameters (context included) to the store it wraps
 	c.Rule("C19.R", "GET response cache: one injective key of (user, URL) for lookup and store", 5)
 	ruleAppResponseCacheKey(c, p, "C19.R")
 	c.Rule("C19.H", "no call hangs: channel capacities, WaitGroup pairing, bounded wait loops", 7)
@@ -620,8 +620,33 @@ func c19Hangs(c *Ctx, p *Prog) {
 				}
 			}
 		}
-		// no other unbounded blocking call in the loop
-		c.Check("C19.H", name+":bounded", p, f.Pos(), ok && okSel, "the wait loop selects on a context derived from context.WithTimeout(<constant>) and returns when it is done", name+": the polling loop is not bounded by a context.WithTimeout(constant) whose Done arm returns: the call can wait forever")
+		// … and no cycle of the loop avoids that select: from each store call, every path back to
+		// the same call passes a select with the Done arm (an error branch that waits for a ticker
+		// and continues would spin past the deadline for as long as the store keeps failing)
+		okCycle := true
+		var doneSels []ssa.Instruction
+		for _, op := range ChanOpsOf(f) {
+			if op.Kind == "recv" && op.InSelect && isDoneChan(op.Chan) {
+				doneSels = append(doneSels, op.Select)
+			}
+		}
+		isDoneSel := func(i ssa.Instruction) bool {
+			for _, d := range doneSels {
+				if i == d {
+					return true
+				}
+			}
+			return false
+		}
+		EachInstr(f, func(i ssa.Instruction) {
+			if !isStoreCall(i) || !InLoop(i.Block()) {
+				return
+			}
+			if again, _ := (&Walk{Target: func(j ssa.Instruction) bool { return j == i }, Avoid: isDoneSel}).FromInstr(i); again != nil {
+				okCycle = false
+			}
+		})
+		c.Check("C19.H", name+":bounded", p, f.Pos(), ok && okSel && okCycle, "the wait loop selects on a context derived from context.WithTimeout(<constant>) and returns when it is done", name+": the polling loop is not bounded by a context.WithTimeout(constant) whose Done arm returns, or an iteration can go round without passing that select: the call can wait forever")
 	}
 	_ = types.Typ
 }
